@@ -323,6 +323,7 @@ func TestC03(t *testing.T) {
 			"oracle: header (version, flags, opcode, length) and body bytes at the backend equal the client's, and the response header/body at the client equal the backend's, stream id excepted; "+
 			"non-trivial = frame with an optional field or header flag, compression, or a body above 16 KiB; distinct by (versions, compression, request bytes hash)")
 	defer finish(t, rec)
+	rec.SetJournalAll(true)
 	rec.Assume("outcomes are restricted to replies the retry policy does not retry for the request's class, so every attempt carries the same bytes",
 		"v5 uses the legacy (pre-segment) frame layout, as the proxy and its own tests do; snappy is not paired with v5")
 	runProp(t, rec, "transparent", perShard(evid.Pick(6000, 120000)), func(rt *rapid.T) c03Case {
